@@ -38,6 +38,34 @@ type originCtx struct {
 }
 
 // originsOf: origins of the errors that fn can return.
+// nilRequestGuard: the call is dominated by the true edge of `p == nil` for a pointer parameter p of its function.
+func (oc *originCtx) nilRequestGuard(c ssa.CallInstruction) bool {
+	fn := c.Parent()
+	if fn == nil || fn.Parent() != nil {
+		return false
+	}
+	fa := oc.e.FA(fn)
+	return fa.HasGuard(c, func(g Guard) bool {
+		if g.Cond.Op != "binop" || !((g.Cond.Name == "==" && g.Pos) || (g.Cond.Name == "!=" && !g.Pos)) {
+			return false
+		}
+		a, b := g.Cond.Args[0], g.Cond.Args[1]
+		if b.Op == "param" {
+			a, b = b, a
+		}
+		if a.Op != "param" || b.Op != "const" || b.Name != "nil" {
+			return false
+		}
+		for _, p := range fn.Params {
+			if reviewedParamName(p) == a.Name {
+				_, isPtr := p.Type().Underlying().(*types.Pointer)
+				return isPtr
+			}
+		}
+		return false
+	})
+}
+
 func (oc *originCtx) originsOf(fn *ssa.Function) originSet {
 	if s, ok := oc.memo[fn]; ok {
 		return s
@@ -213,9 +241,15 @@ func (oc *originCtx) resolveCall(fn *ssa.Function, c *ssa.Call, res originSet) {
 		_ = msg
 		if !wrapped {
 			// keyed by constructor and its ordinal among the function's constructor sites (not by message text)
+			// a constructor under `if <pointer parameter> == nil` answers a nil request: it is classified by its guard,
+			// and does not take part in the numbering (adding such a check must not renumber the reviewed origins)
+			if oc.nilRequestGuard(c) {
+				oc.add(res, errOrigin{"NILREQ", key + " under a nil-parameter test", fn, c})
+				return
+			}
 			n := 0
 			for _, oc2 := range Calls(topFunc(fn)) {
-				if isErrCtor(CalleeKey(oc2.Common())) {
+				if isErrCtor(CalleeKey(oc2.Common())) && !oc.nilRequestGuard(oc2) {
 					n++
 					if oc2 == ssa.CallInstruction(c) {
 						break
@@ -332,6 +366,9 @@ func originRuleMsg(id string, props []string, entry string, floor int, msg strin
 				if o.Kind == "EXT" || o.Kind == "PARSE" {
 					ext++
 					continue
+				}
+				if o.Kind == "NILREQ" {
+					continue // the answer to a nil request pointer: never a valid request
 				}
 				pos := "-"
 				if o.Pos != nil {
